@@ -1444,6 +1444,45 @@ theorem FInv.init (cap k : Nat) (h0 : 0 < cap) (h1 : cap < 2 ^ k) : FInv (St.ini
 theorem run_FInv (s : St) (ls : List Label) (h : FInv s) : FInv (run s ls) :=
   run_induct FInv step_FInv s ls h
 
+/-! ### nothing is discarded after the close -/
+
+/-- `droppedOld` grows only in a step of a producer that is inside its drop-oldest `pop` -/
+theorem step_droppedOld (s : St) (l : Label) :
+    (step s l).droppedOld = s.droppedOld ∨ ∃ i op v rest p, l = .prod i op ∧ s.pp i = .pop v rest p := by
+  cases l with
+  | prod i op =>
+    cases hpc : s.pp i with
+    | pop v rest p => exact Or.inr ⟨i, op, v, rest, p, rfl, hpc⟩
+    | _ =>
+      left
+      simp only [step, stepP, hpc, startP, St.endSample, St.beginSample, St.setP]
+      repeat' split
+      all_goals rfl
+  | cons st =>
+    left
+    simp only [step, stepC, St.loopTop, St.retC]
+    repeat' split
+    all_goals rfl
+  | stop st =>
+    left
+    simp only [step, stepS]
+    repeat' split
+    all_goals rfl
+  | rcv op =>
+    left
+    simp only [step, stepR]
+    repeat' split
+    all_goals rfl
+
+/-- once every source is dropped no sample is discarded any more: whatever is still queued can only
+leave the ring through `recv` -/
+theorem no_discard_after_close_of_inv (s : St) (hL : LInv s) (hc : s.closed = true) (l : Label) :
+    (step s l).droppedOld = s.droppedOld := by
+  rcases step_droppedOld s l with h | ⟨i, op, v, rest, p, _, hpc⟩
+  · exact h
+  · have := closed_no_holder s hL hc i
+    simp [hpc, hasHandle] at this
+
 /-! ### the closing `notify_waiters` is never lost -/
 
 /-- the source is closed and the closing thread has already executed its `notify_waiters()` -/
